@@ -29,6 +29,18 @@ Inductive bexpr : Type :=
 | BEq (a b : expr)
 | BNot (b : bexpr).
 
+(* Calls made by one statement besides the modelled recursive call, as a sequence with nesting: every form of
+   call whose depth accounting must be balanced (the depth after the statement equals the depth before).
+     ASkip   an optional-chaining invocation whose receiver is nil: nothing is invoked, nothing is counted;
+     ANat    a built-in (native) function;
+     AUser n inner  a user-defined callee (function, bound method, closure, initializer, interface default
+             function, function used in a condition): its body runs n statements and makes the calls [inner]. *)
+Inductive aux : Type :=
+| ANone
+| ASkip (rest : aux)
+| ANat (rest : aux)
+| AUser (nstmts : Z) (inner : aux) (rest : aux).
+
 Inductive stmt : Type :=
 | SAssign (x : nat) (e : expr)           (* var x = e  /  x = e *)
 | SDeclArr (a : nat)                     (* var a: [Int] = [] *)
@@ -40,7 +52,8 @@ Inductive stmt : Type :=
 | SReturn (e : expr)
 | SCall (x : nat) (f : nat) (args : list expr)   (* x = f(args): function f of the table *)
 | SAppend (a : nat) (e : expr)                   (* a.append(e): built-in, the array grows by one element *)
-| SConcat (s : nat).                             (* s = s.concat(s): built-in, the string doubles *)
+| SConcat (s : nat)                              (* s = s.concat(s): built-in, the string doubles *)
+| SAux (a : aux).                                (* a statement making the calls [a]; no effect on the variables *)
 
 (* variables of a frame: numbers; for arrays and strings the number is the length *)
 Definition env := list Z.
@@ -198,6 +211,21 @@ Section Machine.
             (fun c1 => if count_native pr && (l_depth lim <? depth c1 + 1)
                        then inr (FLimit LimitDepth) else inl c1).
 
+  (* the calls of an [aux]: each user-defined callee is charged one invocation, occupies one depth level while it
+     runs (checked against the limit when it is entered, released when it returns) and charges its statements *)
+  Fixpoint eval_aux (a : aux) (c : config) : config + final :=
+    match a with
+    | ANone => inl c
+    | ASkip rest => eval_aux rest c
+    | ANat rest => bind_cf (native c) (eval_aux rest)
+    | AUser n inner rest =>
+        bind_cf (charge c KindInv (c_inv pr)) (fun c1 =>
+        bind_cf (enter c1) (fun c2 =>
+        bind_cf (charge c2 KindStmt (c_stmt pr * Z.max 0 n)) (fun c3 =>
+        bind_cf (eval_aux inner c3) (fun c4 =>
+          eval_aux rest (with_depth c4 (depth c4 - 1))))))
+    end.
+
   Definition step (c : config) : config + final :=
     match k c with
     | [] => inr (FDone 0 (n_stmt c) (n_loop c) (n_inv c) (n_mem c))
@@ -243,6 +271,7 @@ Section Machine.
               bind_cf (charge c2 KindLoop n) (fun c3 =>
               bind_cf (charge_mem c3 false n) (fun c4 =>
                 inl (with_k (with_r c4 (set (r c4) s0 n)) rest))))
+          | SAux a => bind_cf (eval_aux a c1) (fun c2 => inl (with_k c2 rest))
           end)
     end.
 
